@@ -26,7 +26,10 @@ Inductive atom : Set :=
   | AIsPartialObj | AModuleHasName | ARuleConvert | ARuleDoNotConvert
   | AHasCode | AIsGenerator | ACheckCallOverride | AIsClass | AHasCall | ACallTypeDiffers
   | ACallAllowlisted | AIsMethodObj | AOwnerNotNone | AOwnerIsTestCase | AOwnerAllowlisted
-  | AIsNamedTuple | AAllowNtSubclass | ABaseIsNamedTuple.
+  | AIsNamedTuple | AAllowNtSubclass | ABaseIsNamedTuple
+  (* py_builtins.overload_of *)
+  | AInSupportedBuiltins      (* f is one of the objects listed in SUPPORTED_BUILTINS *)
+  | ANameInOverloadMap.       (* getattr(f, '__name__') is a key of BUILTIN_FUNCTIONS_MAP *)
 Scheme Equality for atom.
 
 Inductive cond : Set :=
@@ -69,6 +72,11 @@ Record partial_spec : Set := mk_partial_spec {
   ps_kw : list kwstep;          (* applied in order to new_kwargs = {} *)
   ps_target_is_func : bool      (* recursion is on f.func *)
 }.
+
+(* ---- py_builtins.overload_of: what stands in for a native callable *)
+Inductive overload_result : Set :=
+  | OvMapped      (* BUILTIN_FUNCTIONS_MAP[f.__name__] *)
+  | OvSelf.       (* f itself *)
 
 (* ---- CONVERSION_RULES *)
 Inductive rule_action : Set := RNone | RConvert | RDoNotConvert.
